@@ -284,12 +284,16 @@ func genWave(r *vlib.R, kind string, groups int) string {
 		// six distinct names under the silent zone: the fifth all-servers-failed lookup makes the resolver
 		// re-check the zone's name-server hosts (checkHosts) on the failing client's own context
 		_ = waveNo
+		parts = append(parts, fmt.Sprintf("pipebig:ok:%d:o", 110+r.Intn(60)))
 		parts = append(parts, "framesize:ok:12:q", fmt.Sprintf("pipeslow:%s:%d:p", vlib.Pick(r, []string{"drop", "slow", "glacial", "lag"}), 2+r.Intn(2)))
 	}
 	parts = append(parts, fmt.Sprintf("pipehalf:%s:%d:u", vlib.Pick(r, []string{"ok", "lag", "wrongid"}), 1+r.Intn(3)))
 	if kind == "n" {
 		parts = append(parts, fmt.Sprintf("cancellead:cold:%d:y", 3+r.Intn(3)))
 		parts = append(parts, fmt.Sprintf("cancelpair:pair:%d:x", 3+r.Intn(2)))
+	}
+	if kind == "z" || kind == "n" {
+		parts = append(parts, fmt.Sprintf("idedge:%s:5:i", vlib.Pick(r, []string{"tcok", "tcok", "tcreset", "drop"})))
 	}
 	if kind == "z" { // more distinct questions for one zone than its quota of 16
 		parts = append(parts, fmt.Sprintf("shedreask:lag:%d:s", 22+r.Intn(8)))
